@@ -247,12 +247,20 @@ func mateShapes(k int) (tmplCfg, tmplCfg) {
 		return pcfg(true, lInOut, lHidHid), pcfg(true, lInOut, lHidOut)
 	case 4:
 		return pcfg(false, lInOut), pcfg(false, lBiasOut, lInHid, lHidOut)
+	case 5:
+		// node lists not grouped by role: an unconnected output with a higher id than the hidden node
+		a, b := pcfg(false, lInOut, lInHid, lHidOut), pcfg(false, lInOut, lBiasOut)
+		a.lateOutput, b.lateOutput = true, true
+		return a, b
+	case 6:
+		// two genes on the same ordered node pair that differ in the recurrence flag
+		return pcfg(true, lHidOut, lHidOut), pcfg(true, lHidOut, lHidOut)
 	}
 	return pcfg(false, lInOut, lBiasOut, lInHid, lHidOut), pcfg(false, lInOut, lBiasOut, lHidOut)
 }
 
 func mateQuick(prop, method int) {
-	c1, c2 := mateShapes(vChoice("shape", 5))
+	c1, c2 := mateShapes(vChoice("shape", 7))
 	vcMate(prop, method, c1, c2)
 }
 
@@ -263,10 +271,10 @@ func VC01_Multipoint()    { mateQuick(propC01, mateMultipointM) }
 func VC01_MultipointAvg() { mateQuick(propC01, mateMultipointAvgM) }
 func VC01_SinglePoint()   { mateQuick(propC01, mateSinglePointM) }
 func VC04_Large() {
-	c1, c2 := mateShapes(5)
+	c1, c2 := mateShapes(9)
 	vcMate(propC04, vChoice("method", 3), c1, c2)
 }
 func VC01_Large() {
-	c1, c2 := mateShapes(5)
+	c1, c2 := mateShapes(9)
 	vcMate(propC01, vChoice("method", 3), c1, c2)
 }
